@@ -23,6 +23,9 @@ def main():
     if hasattr(mod, "warm"):
         mod.warm()
     gc.collect()
+    # everything imported so far is permanent: keep it out of the per-case garbage collections (World.close collects
+    # the finished case's objects before the next case starts)
+    gc.freeze()
     n = 0
     while True:
         try:
